@@ -114,6 +114,11 @@ def special_construction_case(which):
             q = an(entity(x, in_(x.a, lit)))
         elif which == "list-literal-of-objects":
             q = an(entity(x, in_(x, [xs[0], xs[1]])))  # the literal's first element must not be inspected (bool) at build time
+        elif which == "object-literal-operand":
+            # a constant operand that is one of the user's objects: building the condition does not look at it either
+            c0 = LP(ctx.fresh_int("ca"), kid=Q(ctx.fresh_int("cq")))
+            del LOG[:]
+            q = an(entity(x, or_(x.kid == c0, contains(x.kids, c0), in_(c0, x.kids), not_(x.kid != c0))))
         elif which == "predicate":
             q = an(entity(x, LoggedPred(x, k)))
         elif which == "symbolic-function":
@@ -273,14 +278,14 @@ def cases(tier, seed):
             continue
         seen.add(name)
         cs.append(Case(name, construction_case(cond, sel, 1), reset=eql_reset, validate=1, timeout=120))
-    for which in ("iterator-literal", "list-literal-of-objects", "predicate", "symbolic-function", "symbolic-function-positional-attr", "rule-tree", "match-with-variable-value", "match-nested"):
+    for which in ("iterator-literal", "list-literal-of-objects", "object-literal-operand", "predicate", "symbolic-function", "symbolic-function-positional-attr", "rule-tree", "match-with-variable-value", "match-nested"):
         cs.append(Case("build " + which, special_construction_case(which), reset=eql_reset, validate=1))
     # (b) consumption
     x, y = "x", "y"
     A = lambda v, op="==", i=0: ("cmp", op, ("a", v), ("lit", i))
     one = [A(x, ">"), ("and", A(x, ">"), ("cmp", "<=", ("a", x), ("b", x))), ("or", A(x), A(x, ">", 1)), ("not", A(x)), ("in", ("a", x), (0, 1)), ("pred", x, 0),
            ("and", ("not", A(x)), ("or", A(x, ">", 1), ("cmp", "<", ("b", x), ("lit", 2))))]
-    two = [("cmp", "<", ("a", x), ("a", y)), ("and", A(x, ">"), A(y, "<", 1)), ("and", A(x, ">"), ("cmp", "==", ("a", x), ("a", y))), ("exists", y, ("cmp", "==", ("a", x), ("a", y)))]
+    two = [("pred2", x, y), ("cmp", "<", ("a", x), ("a", y)), ("and", A(x, ">"), A(y, "<", 1)), ("and", A(x, ">"), ("cmp", "==", ("a", x), ("a", y))), ("exists", y, ("cmp", "==", ("a", x), ("a", y)))]
     for c in one:
         c = relabel_lits(c)
         cs.append(Case("consume entity(x|%s)|N<=%d" % (show(c), N + 1), consumption_case(c, N + 1, False), key="consume entity(x|%s)" % show(c), reset=eql_reset, validate=1, timeout=300, max_paths=100000))
